@@ -51,9 +51,12 @@ def param_strategy(name: str):
     if p is None:
         return st.none()
     if p == "threshold":
-        return st.one_of(st.sampled_from([0.25, 0.5, 1.0, 2.0]), st.floats(0.05, 20.0, allow_nan=False))
+        return st.one_of(st.sampled_from([0.25, 0.5, 1.0, 2.0]), st.floats(0.05, 20.0, allow_nan=False),
+                         st.floats(0.05, 20.0, allow_nan=False), st.floats(1e-4, 0.05, allow_nan=False),
+                         st.floats(20.0, 1e4, allow_nan=False))
     if p == "num_trials":
-        return st.one_of(st.integers(1, 20).map(float), st.floats(0.1, 50.0, allow_nan=False))
+        return st.one_of(st.integers(1, 20).map(float), st.floats(0.1, 50.0, allow_nan=False),
+                         st.integers(20, 10**4).map(float))
     # beta: b not in {0, 1} (the loss divides by b and b-1); b in (0,1) is the usual range
     return st.one_of(
         st.sampled_from([0.5, 0.25, 0.75, 1.5, 2.0, 3.0, -0.5, -1.0]),
@@ -74,13 +77,23 @@ def data_value(kind: str, small: bool = False):
         return st.sampled_from([0.0, 1.0])
     if kind == "count":
         big = st.integers(7, 40 if small else 1000).map(float)
-        return st.one_of(st.just(0.0), st.just(1.0), st.integers(2, 6).map(float), big)
+        if small:
+            return st.one_of(st.just(0.0), st.just(1.0), st.integers(2, 6).map(float), big)
+        return st.one_of(st.just(0.0), st.just(1.0), st.integers(2, 6).map(float), big, big,
+                         st.integers(1000, 10**6).map(float))
     if kind == "nonneg":
         hi = 20.0 if small else 1e3
-        return st.one_of(st.just(0.0), st.just(1.0), st.integers(2, 6).map(float),
-                         st.floats(1e-2 if small else 1e-3, hi, allow_nan=False))
+        base = [st.just(0.0), st.just(1.0), st.integers(2, 6).map(float),
+                st.floats(1e-2 if small else 1e-3, hi, allow_nan=False)]
+        if not small:  # magnitudes 1e-6 .. 1e+6
+            base += [st.floats(1e-2, hi, allow_nan=False), st.floats(1e-6, 1e-3, allow_nan=False),
+                     st.floats(1e3, 1e6, allow_nan=False)]
+        return st.one_of(*base)
     hi = 10.0 if small else 1e3
-    return st.one_of(st.just(0.0), st.integers(-6, 6).map(float), sfloats(1e-3, hi))
+    base = [st.just(0.0), st.integers(-6, 6).map(float), sfloats(1e-3, hi)]
+    if not small:
+        base += [sfloats(1e-3, hi), sfloats(1e-6, 1e-3), sfloats(1e3, 1e6)]
+    return st.one_of(*base)
 
 
 def data_class(x: float) -> str:
@@ -100,10 +113,11 @@ def model_value(name: str):
     add 1e-10 inside log / division, so they are defined and differentiable at 0)."""
     lb = LOSSES[name]["lb"]
     if lb == 0.0:
-        return st.one_of(st.just(0.0), st.floats(1e-8, 1e-3), st.floats(1e-3, 1.0), st.floats(1.0, 1e3))
+        return st.one_of(st.just(0.0), st.floats(1e-8, 1e-3), st.floats(1e-3, 1.0), st.floats(1.0, 1e3), st.floats(1e-3, 1.0),
+                         st.floats(1.0, 1e3), st.floats(1e3, 1e6))
     if name in ("bernoulli_logit", "poisson_log"):
         return st.one_of(st.just(0.0), sfloats(1e-6, 5), sfloats(1e-3, 30))
-    return st.one_of(st.just(0.0), sfloats(1e-6, 5), sfloats(1e-3, 1e3))
+    return st.one_of(st.just(0.0), sfloats(1e-6, 5), sfloats(1e-3, 1e3), sfloats(1e-3, 1e3), sfloats(1e3, 1e6))
 
 
 # --------------------------------------------------------------------------
@@ -167,6 +181,20 @@ def scale_f(name: str, x, m, p=None):
     raise KeyError(name)
 
 
+def param_loss(name: str, x, m, p):
+    """the three parameterised losses written out from their definitions (used to tell which parameter a handle
+    pair carries; the derivative oracles never use this)"""
+    x, m = np.asarray(x, dtype=float), np.asarray(m, dtype=float)
+    if name == "huber":
+        d = np.abs(x - m)
+        return np.where(d < p, d * d, 2 * p * d - p * p)
+    if name == "negative_binomial":
+        return (p + x) * np.log(m + 1) - x * np.log(m + SHIFT)
+    if name == "beta":
+        return (m + SHIFT) ** p / p - x * (m + SHIFT) ** (p - 1) / (p - 1)
+    raise KeyError(name)
+
+
 # --------------------------------------------------------------------------
 # differentiation oracles
 # --------------------------------------------------------------------------
@@ -222,8 +250,86 @@ def build_factors(case) -> List[np.ndarray]:
     return [np.array(f, dtype=float).reshape(n, r) for f, n in zip(case["factors"], case["shape"])]
 
 
+MODEL_PROV = ["ctor", "ctor", "ctor", "copy", "absorbed", "permuted", "weighted", "normalized", "arranged"]
+UNIT_PROV = ["ctor", "ctor", "copy", "absorbed", "permuted"]
+
+
+@st.composite
+def model_state(draw, name, shape, rank, allow_weighted=True):
+    """how the Kruskal model comes into being: fresh from the constructor (unit weights), or in a state an earlier
+    public operation left it in - copy(), weights absorbed into a factor (normalize(0): C-ordered factor), modes
+    permuted, and, where weighted models are admissible, explicit weights / normalize() / arrange()"""
+    prov = draw(st.sampled_from(MODEL_PROV if allow_weighted else UNIT_PROV))
+    out = dict(mprov=prov, mperm=list(draw(st.permutations(range(len(shape))))), mmode=draw(st.integers(0, len(shape) - 1)))
+    if prov in ("weighted", "absorbed"):
+        if LOSSES[name]["lb"] == 0.0:
+            wv = st.one_of(st.sampled_from([0.5, 2.0, 1.0]), st.floats(0.1, 4.0))
+        else:
+            wv = st.one_of(st.sampled_from([0.5, 2.0, 1.0, -1.0]), sfloats(0.1, 4.0))
+        out["mweights"] = draw(st.lists(wv, min_size=rank, max_size=rank))
+    return out
+
+
 def build_model(case) -> ttb.ktensor:
-    return ttb.ktensor([f.copy() for f in build_factors(case)])  # unit weights
+    """the model object in the drawn state (public API only); old cases without 'mprov' get the constructor"""
+    fm = build_factors(case)
+    prov = case.get("mprov", "ctor")
+    w = np.array(case["mweights"], dtype=float) if case.get("mweights") is not None else np.ones(case["rank"])
+    plain = ttb.ktensor([f.copy() for f in fm])
+    try:
+        if prov == "copy":
+            K = plain.copy()
+        elif prov == "absorbed":
+            K = ttb.ktensor([f.copy() for f in fm], w.copy())
+            K.normalize(weight_factor=case.get("mmode", 0))
+        elif prov == "permuted":
+            p = list(case["mperm"])
+            K = ttb.ktensor([fm[i].copy() for i in p]).permute(np.argsort(p))
+        elif prov == "weighted":
+            K = ttb.ktensor([f.copy() for f in fm], w.copy())
+        elif prov == "normalized":
+            K = ttb.ktensor([f.copy() for f in fm])
+            K.normalize()
+        elif prov == "arranged":
+            K = ttb.ktensor([f.copy() for f in fm])
+            K.arrange()
+        else:
+            K = plain
+    except Exception:  # noqa: BLE001  (these routes are judged by other properties)
+        K = plain
+    ok = (isinstance(K, ttb.ktensor) and tuple(K.shape) == tuple(case["shape"]) and K.ncomponents == case["rank"]
+          and all(np.all(np.isfinite(f)) for f in K.factor_matrices) and bool(np.all(np.isfinite(K.weights))))
+    if ok and LOSSES[case["loss"]]["lb"] == 0.0:
+        ok = bool(np.all(K.weights >= 0)) and all(bool(np.all(f >= 0)) for f in K.factor_matrices)
+    return K if ok else plain
+
+
+def read_model(K):
+    """(weights, factor matrices) as they stand - copies"""
+    return np.array(K.weights, dtype=float, copy=True), [np.array(f, dtype=float, copy=True) for f in K.factor_matrices]
+
+
+def absorb(lam, A):
+    """factor list denoting the same tensor with unit weights (weights multiplied into mode 0)"""
+    return [A[0] * np.asarray(lam)[None, :]] + [a for a in A[1:]]
+
+
+def normalize0_ref(lam, A):
+    """reference for ktensor.normalize(0) as documented: columns scaled to unit 2-norm, norms collected in the
+    weights, negative weights flipped into mode 0, weights absorbed into mode 0"""
+    lam = np.array(lam, dtype=float, copy=True)
+    B = [np.array(a, dtype=float, copy=True) for a in A]
+    for k in range(len(B)):
+        for r in range(B[k].shape[1]):
+            t = np.linalg.norm(B[k][:, r])
+            if t > 0:
+                B[k][:, r] = B[k][:, r] / t
+            lam[r] = lam[r] * t
+    neg = lam < 0
+    B[0][:, neg] = -B[0][:, neg]
+    lam[neg] = -lam[neg]
+    B[0] = B[0] * lam[None, :]
+    return B
 
 
 def kruskal_c(factors: Sequence[np.ndarray]) -> np.ndarray:
@@ -245,7 +351,7 @@ def mttkrp_ref(Y: np.ndarray, factors: Sequence[np.ndarray], k: int) -> np.ndarr
 
 @st.composite
 def weights_for(draw, ncells):
-    kind = draw(st.sampled_from(["none", "mask", "positive"]))
+    kind = draw(st.sampled_from(["none", "mask", "mask", "positive"]))
     if kind == "none":
         return kind, None
     if kind == "mask":
@@ -254,6 +360,30 @@ def weights_for(draw, ncells):
         w = draw(st.lists(st.one_of(st.just(0.0), st.floats(0.1, 5.0), st.floats(0.1, 5.0)),
                           min_size=ncells, max_size=ncells))
     return kind, w
+
+
+WEIGHT_DTYPES = ["float64", "float64", "int64", "bool", "uint8"]  # (integer / boolean arrays: masks only)
+DATA_DTYPES = ["float64", "float64", "float64", "int64", "int32", "uint8", "uint16", "bool"]
+DTYPE_MAX = {"uint8": 255, "uint16": 65535, "int32": 2**31 - 1, "bool": 1}
+
+
+def data_dtypes(name):
+    """dtypes in which data of this loss is ordinarily held (boolean arrays: the two Bernoulli losses only)"""
+    if name == "huber":
+        return ["float64"]
+    return DATA_DTYPES if LOSSES[name]["data"] == "binary" else [d for d in DATA_DTYPES if d != "bool"]
+
+
+def typed(values, dtype):
+    """the array in the requested dtype when that represents every value exactly, else float64"""
+    a = np.asarray(values, dtype=float)
+    if dtype in (None, "float64"):
+        return a
+    if a.size and (np.any(a != np.round(a)) or np.any(np.abs(a) > DTYPE_MAX.get(dtype, 2**53))):
+        return a
+    if a.size and np.any(a < 0) and (dtype.startswith("uint") or dtype == "bool"):
+        return a
+    return a.astype(dtype)
 
 
 HUBER_MARGIN = 0.02  # |x-m|/threshold stays outside [1-margin, 1+margin]
@@ -268,7 +398,8 @@ def huber_ratio(draw):
 
 
 @st.composite
-def problem(draw, tier, losses=LOSS_NAMES, holders=("dense", "sparse"), with_weights=True, max_order=None):
+def problem(draw, tier, losses=LOSS_NAMES, holders=("dense", "sparse"), with_weights=True, max_order=None,
+            weighted_models=True):
     """loss + parameter + unit-weight Kruskal model + data in the loss's data domain (+ weights).
     For Huber the data are given as offsets from the model values so that no entry sits on the kink."""
     name = draw(st.sampled_from(list(losses)))
@@ -295,8 +426,16 @@ def problem(draw, tier, losses=LOSS_NAMES, holders=("dense", "sparse"), with_wei
         case["perm_seed"] = draw(st.integers(0, 2**31 - 1))
     if with_weights:
         case["wkind"], case["weights"] = draw(weights_for(ncells))
+        case["worder"] = draw(st.sampled_from(["F", "C"]))
+        case["wdtype"] = draw(st.sampled_from(WEIGHT_DTYPES)) if case["wkind"] == "mask" else "float64"
     else:
         case["wkind"], case["weights"] = "none", None
+    case["ddtype"] = draw(st.sampled_from(data_dtypes(name)))
+    if case["holder"] == "dense":
+        case["dprov"] = draw(st.sampled_from(["ctor", "ctor", "grown", "c-order"]))
+    else:
+        case["dprov"] = draw(st.sampled_from(["ctor", "ctor", "np-shape", "explicit-zeros"]))
+    case.update(draw(model_state(name, shape, rank, allow_weighted=weighted_models)))
     return case
 
 
@@ -310,11 +449,22 @@ def data_array(case, M: np.ndarray) -> np.ndarray:
 
 
 def build_data(case, X: np.ndarray):
+    """data tensor holding X: dtype 'ddtype' where that is exact, in the drawn provenance state"""
     shape = tuple(case["shape"])
+    Xt = typed(X, case.get("ddtype"))
+    prov = case.get("dprov", "ctor")
     if case["holder"] == "dense":
-        return ttb.tensor(X.copy(order="F"), shape)
+        T = None
+        if prov == "grown" and Xt.dtype == np.float64:  # (growth turns integer data into float data)
+            T = gen.build_tensor(dict(shape=list(shape), data=[float(v) for v in X.flatten(order="F")], prov="grown"))
+        elif prov == "c-order":
+            T = ttb.tensor(np.ascontiguousarray(Xt), shape)
+        if T is None or tuple(int(n) for n in T.shape) != shape or not np.array_equal(np.asarray(T.data, dtype=float), X):
+            T = ttb.tensor(Xt.copy(order="F"), shape)
+        return T
     sc = gen.sparse_case_from_dense(X)
     n = len(sc["subs"])
+    spshape = tuple(np.array(shape, dtype=np.int64)) if prov == "np-shape" else shape
     if n == 0:
         return ttb.sptensor(shape=shape)
     order = list(range(n))
@@ -323,14 +473,25 @@ def build_data(case, X: np.ndarray):
     elif case.get("stored") == "random":
         order = list(np.random.RandomState(case.get("perm_seed", 0)).permutation(n))
     subs = np.array([sc["subs"][i] for i in order], dtype=int).reshape(n, len(shape))
-    vals = np.array([sc["vals"][i] for i in order], dtype=float).reshape(n, 1)
-    return ttb.sptensor(subs, vals, shape)
+    vals = typed([sc["vals"][i] for i in order], case.get("ddtype")).reshape(n, 1)
+    if prov == "explicit-zeros":
+        zs = np.argwhere(X == 0)
+        if len(zs):
+            rs = np.random.RandomState(case.get("perm_seed", 0))
+            zs = zs[rs.permutation(len(zs))[: max(1, len(zs) // 2)]]
+            subs = np.vstack((subs, zs))
+            vals = np.vstack((vals, np.zeros((len(zs), 1), dtype=vals.dtype)))
+            p = rs.permutation(len(subs))
+            subs, vals = subs[p], vals[p]
+    return ttb.sptensor(subs, vals, spshape)
 
 
 def weight_array(case) -> Optional[np.ndarray]:
     if case.get("weights") is None:
         return None
-    return gen.arr_F(tuple(case["shape"]), case["weights"]).copy()
+    w = gen.arr_F(tuple(case["shape"]), case["weights"])
+    w = typed(w, case.get("wdtype")) if case.get("wkind") == "mask" else w
+    return np.ascontiguousarray(w) if case.get("worder", "C") == "C" else np.asfortranarray(w)
 
 
 def model_rounding(factors: Sequence[np.ndarray]) -> np.ndarray:
